@@ -47,9 +47,15 @@ TBudget == /\ Is("Budget") /\ Ev.inf
 TWhole == /\ Is("Whole") /\ Adv /\ UNCHANGED <<ivars, other, pulled0, lazyCheck>>
           /\ IF unord THEN IsPerm(Ev.out, rem) ELSE Ev.out = rem
 TCount == Is("Count") /\ Ev.n = Len(rem) /\ Adv /\ UNCHANGED <<ivars, other, pulled0, lazyCheck>>
+\* a lazy List walked cell by cell in any order of Head / IsEmpty / Tail: cell pos holds element pos + 1 of the output
+TList  == /\ Is("List") /\ Adv /\ UNCHANGED <<ivars, other, pulled0, lazyCheck>>
+          /\ IF Ev.op = "H" THEN (IF Ev.pos < Len(rem) THEN ~Ev.pn /\ Ev.v = rem[Ev.pos + 1] ELSE Ev.pn)
+             ELSE Ev.r = (Ev.pos >= Len(rem))
+\* memoised cells: no generator index is evaluated twice, no source element pulled twice
+TGen   == Is("GenCalls") /\ Ev.max <= 1 /\ Ev.pulled <= Ev.srclen /\ Adv /\ UNCHANGED <<ivars, other, pulled0, lazyCheck>>
 TEnd   == Is("End") /\ Adv /\ UNCHANGED <<ivars, other, pulled0, lazyCheck>>
 
-TNext0 == TReset \/ THas \/ TNext \/ THasR \/ TNextR \/ TBudget \/ TWhole \/ TCount \/ TEnd
+TNext0 == TReset \/ THas \/ TNext \/ THasR \/ TNextR \/ TBudget \/ TWhole \/ TCount \/ TList \/ TGen \/ TEnd
 TSpec == TInit /\ [][TNext0]_tvars
 
 HighWater == TLCSet(1, IF TLCGet(1) < l THEN l ELSE TLCGet(1))
